@@ -45,6 +45,26 @@ type C10Case struct {
 	Streams  [][]LRUOp `json:"streams"`
 	Yields   [][]int   `json:"yields,omitempty"` // lin mode: runtime.Gosched() calls before each op
 	Reps     int       `json:"reps,omitempty"`   // executions of the same case (schedules differ)
+	NilKey   bool      `json:"nilkey,omitempty"` // the first shared key ("s0" / "a") is the untyped nil interface
+}
+
+// gokey maps a key name to the Go key handed to the cache.
+func (c *C10Case) gokey(k string) interface{} {
+	if c.NilKey && (k == "s0" || k == "a") {
+		return nil
+	}
+	return k
+}
+
+func (c *C10Case) keyName(k interface{}) string {
+	if k == nil && c.NilKey {
+		if c.Mode == "lin" {
+			return "a"
+		}
+		return "s0"
+	}
+	ks, _ := k.(string)
+	return ks
 }
 
 type c10Res struct {
@@ -102,9 +122,8 @@ func runC10Race(c *C10Case) (string, c10Facts) {
 	var cbLog []model.KV // appended inside the callback, i.e. under the cache's own lock
 	if c.Callback {
 		cache.SetDelCallBackFn(func(k, v interface{}) {
-			ks, _ := k.(string)
 			iv, _ := v.(int)
-			cbLog = append(cbLog, model.KV{K: ks, V: iv})
+			cbLog = append(cbLog, model.KV{K: c.keyName(k), V: iv})
 		})
 	}
 	G := len(c.Streams)
@@ -127,13 +146,13 @@ func runC10Race(c *C10Case) (string, c10Facts) {
 			for i, op := range ops {
 				switch op.Kind {
 				case "S":
-					cache.Store(op.Key, op.Val)
+					cache.Store(c.gokey(op.Key), op.Val)
 				case "L":
-					v, ok := cache.Load(op.Key)
+					v, ok := cache.Load(c.gokey(op.Key))
 					iv, _ := v.(int)
 					local[i] = c10Res{v: iv, ok: ok}
 				case "D":
-					cache.Delete(op.Key)
+					cache.Delete(c.gokey(op.Key))
 				case "N":
 					local[i] = c10Res{n: cache.Len()}
 				case "P":
@@ -241,7 +260,7 @@ func runC10Race(c *C10Case) (string, c10Facts) {
 	sort.Strings(names)
 	hits := 0
 	for _, k := range names {
-		if v, ok := cache.Load(k); ok {
+		if v, ok := cache.Load(c.gokey(k)); ok {
 			hits++
 			if iv, _ := v.(int); stored[iv] != k {
 				return fmt.Sprintf("at quiescence Load(%s) = %v, which nobody stored under that key", k, v), facts
@@ -253,7 +272,7 @@ func runC10Race(c *C10Case) (string, c10Facts) {
 	}
 	facts.evictions = len(cbLog)
 	for _, k := range names {
-		cache.Delete(k)
+		cache.Delete(c.gokey(k))
 	}
 	if l := cache.Len(); l != 0 {
 		return fmt.Sprintf("after deleting every key Len() = %d", l), facts
@@ -425,13 +444,13 @@ func runC10Lin(c *C10Case) ([]porcupine.Operation, string) {
 				call := atomic.AddInt64(&clock, 1)
 				switch op.Kind {
 				case "S":
-					cache.Store(op.Key, op.Val)
+					cache.Store(c.gokey(op.Key), op.Val)
 				case "L":
-					v, ok := cache.Load(op.Key)
+					v, ok := cache.Load(c.gokey(op.Key))
 					iv, _ := v.(int)
 					out = linOut{V: iv, OK: ok}
 				case "D":
-					cache.Delete(op.Key)
+					cache.Delete(c.gokey(op.Key))
 				case "N":
 					out = linOut{N: cache.Len()}
 				case "P":
@@ -525,6 +544,7 @@ func genC10Race(t *rapid.T) *C10Case {
 		Cap:      rapid.SampledFrom([]int{0, 1, 2, 3, 4, 8}).Draw(t, "cap"),
 		Callback: rapid.Bool().Draw(t, "callback"),
 		Procs:    rapid.SampledFrom([]int{16, 4, 2, 1}).Draw(t, "procs"),
+		NilKey:   rapid.IntRange(0, 3).Draw(t, "nilKey") == 0,
 	}
 	G := rapid.SampledFrom([]int{2, 2, 3, 4, 8, 16}).Draw(t, "goroutines")
 	nShared := rapid.SampledFrom([]int{3, 3, 64}).Draw(t, "sharedKeys")
@@ -568,6 +588,7 @@ func genC10Lin(t *rapid.T) *C10Case {
 		Callback: rapid.Bool().Draw(t, "callback"),
 		Procs:    rapid.SampledFrom([]int{16, 4, 2}).Draw(t, "procs"),
 		Reps:     ev.Pick(6, 12),
+		NilKey:   rapid.IntRange(0, 3).Draw(t, "nilKey") == 0,
 	}
 	G := rapid.IntRange(2, 4).Draw(t, "goroutines")
 	for g := 0; g < G; g++ {
@@ -657,7 +678,7 @@ func c10LinOnce(t ev.TB, c *C10Case, sub string) {
 	nt := facts.overlap && facts.mutations > 0 && facts.evictions > 0
 	ev.Case(c10Key(c), nt, func() interface{} { return c })
 	if msg != "" {
-		ev.Fail(t, "C10", sub, map[string]interface{}{"mode": "lin", "cap": c.Cap, "callback": c.Callback, "gomaxprocs": c.Procs,
+		ev.Fail(t, "C10", sub, map[string]interface{}{"mode": "lin", "cap": c.Cap, "callback": c.Callback, "gomaxprocs": c.Procs, "nilkey": c.NilKey,
 			"streams": c.Streams, "yields": c.Yields, "reps": 200, "recorded_history": bad}, "%s", msg)
 	}
 }
